@@ -72,6 +72,7 @@ def ir_flow(prop, tier, seed, descs, own, models, level_note_assumptions, t0, ha
     nruns = 0
     nstates = 0
     nlines = 0
+    allhits = []
     for r in dres:
         if r["timeout"]:
             ds, n, complete = V.trace_runs(r["file"]) if os.path.exists(r["file"]) else ([], 0, True)
@@ -94,6 +95,9 @@ def ir_flow(prop, tier, seed, descs, own, models, level_note_assumptions, t0, ha
                 violations.append((h["r"], d, t["trace"], h["run"], h))
             else:
                 others[h["r"]] = others.get(h["r"], 0) + 1
+            allhits.append(dict(rule=h["r"], desc=d, trace=t["trace"], run=h["run"], line=h["l"]))
+    with open(os.path.join(wd, "allhits.json"), "w") as fh:
+        json.dump(allhits, fh, indent=1)
     # ---- confirm every violation by re-running its descriptor alone; known findings are listed, not raised
     confirmed = []
     for i, (rule, d, tf, runidx, h) in enumerate(violations):
@@ -172,7 +176,39 @@ def check_C05(tier, seed, t0):
     return ir_flow("C05", tier, seed, descs, own, models, COMMON_ASSUME, t0)
 
 
-CHECKS = {"C05": check_C05}
+HERM_NUM = ["Genuine", "UnitNorm", "Orthonormal", "ConvGenuine", "ConvCount", "I:ReturnedAreFresh", "AllFinite"]
+GEN_NUM = ["Genuine", "UnitNorm", "InSpectrumOfA", "Distinct", "ConvGenuine", "ConvCount", "I:ReturnedAreFresh", "AllFinite"]
+KRY = ["FacShape", "FacFinite", "KrylovAV", "KrylovVV", "KrylovVf", "KrylovBeta", "KrylovRealH", "Hessenberg", "TridiagonalSymmetric", "KAdvertised",
+       "ExpandBasisFailed", "ExpandSeed", "G:CompressH", "G:CompressV", "G:FacBegin", "G:FacStep", "G:FacDone", "G:FacInit", "G:ExpandBasis", "I:KInRange"]
+
+
+def types_for(tier):
+    return ("d", "d", "f", "l") if tier == "thorough" else ("d", "d", "d", "f", "l")
+
+
+def check_C01(tier, seed, t0):
+    rng = random.Random(2000 + seed)
+    descs = P.herm_basic(rng, n_of(tier, 120, 2500), types=types_for(tier), meas=1, nmax=n_of(tier, 40, 120))
+    models = [("MC_IR.tla", "IR_quick.cfg" if tier == "quick" else "IR_design.cfg", 8)]
+    return ir_flow("C01", tier, seed, descs, HERM_NUM, models, COMMON_ASSUME, t0)
+
+
+def check_C02(tier, seed, t0):
+    rng = random.Random(3000 + seed)
+    descs = P.gen_basic(rng, n_of(tier, 120, 2500), types=types_for(tier), meas=1, nmax=n_of(tier, 36, 100))
+    models = [("MC_IR.tla", "IR_quick.cfg" if tier == "quick" else "IR_design.cfg", 8)]
+    return ir_flow("C02", tier, seed, descs, GEN_NUM, models, COMMON_ASSUME, t0)
+
+
+def check_C07(tier, seed, t0):
+    rng = random.Random(4000 + seed)
+    descs = P.herm_basic(rng, n_of(tier, 60, 800), types=types_for(tier), meas=2, nmax=n_of(tier, 36, 90))
+    descs += P.gen_basic(rng, n_of(tier, 60, 800), types=types_for(tier), meas=2, nmax=n_of(tier, 32, 80), ref=0)
+    models = [("MC_IR.tla", "IR_quick.cfg" if tier == "quick" else "IR_design.cfg", 8)]
+    return ir_flow("C07", tier, seed, descs, KRY, models, COMMON_ASSUME, t0)
+
+
+CHECKS = {"C05": check_C05, "C01": check_C01, "C02": check_C02, "C07": check_C07}
 
 
 def main():
